@@ -56,7 +56,7 @@ def build_fixtures(D, S):
             @D.server_event
             def on_d(self, client, seqnum, msg: Dd):
                 log.append(("r3", "D", client, seqnum, msg))
-        return dict(r1=R1(), r2=R2(), r3=R3())
+        return dict(r1=R1(), r1b=R1(), r2=R2(), r3=R3())
 
     def client_resources():
         class R1:
@@ -85,7 +85,7 @@ def build_fixtures(D, S):
             @D.client_event
             def on_d(self, seqnum, msg: Dd):
                 log.append(("r3", "D", None, seqnum, msg))
-        return dict(r1=R1(), r2=R2(), r3=R3())
+        return dict(r1=R1(), r1b=R1(), r2=R2(), r3=R3())
     return cls, log, server_resources, client_resources
 
 
@@ -171,6 +171,11 @@ def run(ctx):
                     res = "exception:%s" % type(e).__name__
                 if len(log) == 1:
                     rn, cn, cl, sq, m = log[0]
+                    # the fixtures log their class; the instance that was actually invoked is the owner of the registered bound method
+                    fn = o["d"].registered_events.get(arg)
+                    for nm_, robj in o["res"].items():
+                        if getattr(fn, "__self__", None) is robj:
+                            rn = nm_
                     passed = (m is msg and sq == 42 and (cl is token if kind == "server" else True) and cn == arg)
                     called = rn if passed else "WRONG-ARGS"
                 elif len(log) > 1:
